@@ -11,6 +11,9 @@ def check(ctx):
         for_paths(ctx, ctx.repo, name, per)
     check_lpsd_wrapper(ctx, ctx.repo)
     check_rounding_helper(ctx, ctx.repo)
+    # a plan is a function of its configuration: memoised intermediate results must be keyed by every parameter they depend on
+    from ..dispatch import check_cache_keys
+    check_cache_keys(ctx, rule="R8-memo-key-complete", files=("speckit/schedulers.py", "speckit/utils.py"))
     ctx.trust("E5/E6 loop summarisation (entry symbols for loop-carried values)", "library model rows (np.round, np.clip, np.select, np.searchsorted, masked stores)")
     ctx.assume("exact arithmetic; opaque branch conditions are not interpreted: every path through the scheduler is enumerated and checked")
     return ("Each scheduler is abstractly interpreted with symbolic parameters along every path of its decision tree (branch conditions stay opaque; the "
